@@ -1,4 +1,5 @@
 use super::scratch::DecoderScratch;
+use crate::common::MAX_BLOCK_SIZE;
 use crate::decoding::errors::ExecuteSequencesError;
 
 /// Take the provided decoder and execute the sequences stored within
@@ -9,6 +10,13 @@ pub fn execute_sequences(scratch: &mut DecoderScratch) -> Result<(), ExecuteSequ
 
     for idx in 0..scratch.sequences.len() {
         let seq = scratch.sequences[idx];
+
+        // A block must not regenerate more than MAX_BLOCK_SIZE bytes. Check before copying anything
+        // so corrupted data can not make the buffer grow without bounds (and seq_sum can not overflow).
+        let block_size = u64::from(seq_sum) + u64::from(seq.ll) + u64::from(seq.ml);
+        if block_size > u64::from(MAX_BLOCK_SIZE) {
+            return Err(ExecuteSequencesError::BlockSizeTooLarge { size: block_size });
+        }
 
         if seq.ll > 0 {
             let high = literals_copy_counter + seq.ll as usize;
@@ -39,6 +47,10 @@ pub fn execute_sequences(scratch: &mut DecoderScratch) -> Result<(), ExecuteSequ
     }
     if literals_copy_counter < scratch.literals_buffer.len() {
         let rest_literals = &scratch.literals_buffer[literals_copy_counter..];
+        let block_size = u64::from(seq_sum) + rest_literals.len() as u64;
+        if block_size > u64::from(MAX_BLOCK_SIZE) {
+            return Err(ExecuteSequencesError::BlockSizeTooLarge { size: block_size });
+        }
         scratch.buffer.push(rest_literals);
         seq_sum += rest_literals.len() as u32;
     }
